@@ -12,8 +12,8 @@ import (
 	"fmt"
 	"io"
 	"sort"
-	"sync"
 	"strings"
+	"sync"
 
 	"github.com/kubewharf/kubebrain/pkg/storage"
 
@@ -69,12 +69,12 @@ type Entry struct {
 	Err       string
 	ErrClass  string // "", cas, uncertain, notfound, other
 	Fault     string
-	EnterStep uint64 // step in which the node issued the call
-	ApplyStep uint64 // step in which the engine executed it (0 = never reached the engine)
-	RetMs     int64  // simulated time (ms) at which the call returned
-	ApplySeq  int    // global order of engine executions (1-based; 0 = never)
-	RetStep   uint64 // step in which the call returned to the node (0 = has not returned)
-	Class     string // data, compact, lock, other
+	EnterStep uint64      // step in which the node issued the call
+	ApplyStep uint64      // step in which the engine executed it (0 = never reached the engine)
+	RetMs     int64       // simulated time (ms) at which the call returned
+	ApplySeq  int         // global order of engine executions (1-based; 0 = never)
+	RetStep   uint64      // step in which the call returned to the node (0 = has not returned)
+	Class     string      // data, compact, lock, other
 	Tag       interface{} // harness tag of the request in flight on the calling task
 	ByRetry   bool
 }
@@ -93,12 +93,12 @@ type Fault struct {
 
 // Rates are probabilistic faults drawn from the run PRNG at call time.
 type Rates struct {
-	CommitErr      float64 `json:"commit_err,omitempty"`
-	CommitUncA     float64 `json:"commit_unc_applied,omitempty"`
-	CommitUncL     float64 `json:"commit_unc_lost,omitempty"`
-	ReadErr        float64 `json:"read_err,omitempty"`
-	DelErr         float64 `json:"del_err,omitempty"`
-	OnlyClass      string  `json:"only_class,omitempty"`
+	CommitErr  float64 `json:"commit_err,omitempty"`
+	CommitUncA float64 `json:"commit_unc_applied,omitempty"`
+	CommitUncL float64 `json:"commit_unc_lost,omitempty"`
+	ReadErr    float64 `json:"read_err,omitempty"`
+	DelErr     float64 `json:"del_err,omitempty"`
+	OnlyClass  string  `json:"only_class,omitempty"`
 }
 
 // Freedoms are legal variations of the engine contract.
@@ -111,21 +111,21 @@ type Freedoms struct {
 
 // World is the shared engine with its ground truth.
 type World struct {
-	S       *rt.Sched
-	Inner   storage.KvStorage
-	Lazy    bool // buffer batch operations until Commit (engines whose Begin takes a lock)
-	GT      []*Entry
-	Plan    []*Fault
-	Rates   Rates
-	Free    Freedoms
-	Parts   func(start, end []byte) []storage.Partition
-	Fired   map[string]int // fault kind -> times actually fired
-	Calls   map[string]int // op -> calls
-	LockKey []byte         // set by the world for classification
-	CompKey []byte
-	Probes  map[string]int
-	OnCrash func(node int)
-	TSOFn   func(inner uint64) uint64
+	S        *rt.Sched
+	Inner    storage.KvStorage
+	Lazy     bool // buffer batch operations until Commit (engines whose Begin takes a lock)
+	GT       []*Entry
+	Plan     []*Fault
+	Rates    Rates
+	Free     Freedoms
+	Parts    func(start, end []byte) []storage.Partition
+	Fired    map[string]int // fault kind -> times actually fired
+	Calls    map[string]int // op -> calls
+	LockKey  []byte         // set by the world for classification
+	CompKey  []byte
+	Probes   map[string]int
+	OnCrash  func(node int)
+	TSOFn    func(inner uint64) uint64
 	applySeq int
 	mu       sync.Mutex
 	TagFn    func(task string) interface{}
